@@ -1,4 +1,5 @@
 import Model.TypeStr
+import Proofs.Infer
 /-
 C19 — Type inference is total and sound; type compatibility is reflexive and symmetric.
 
@@ -218,3 +219,316 @@ example : conflicts asciiExt [65, 114, 114, 97, 121, 40, 69, 110, 117, 109, 56, 
 example : conflicts asciiExt [77, 97, 112, 40, 83, 116, 114, 105, 110, 103, 44, 85, 73, 110, 116, 56, 41] [77, 97, 112, 40, 83, 116, 114, 105, 110, 103, 44, 32, 85, 73, 110, 116, 56, 41] = false := by decide
 example : conflicts asciiExt [65, 114, 114, 97, 121, 40, 83, 116, 114, 105, 110, 103, 41] [65, 114, 114, 97, 121, 40, 73, 110, 116, 56, 41] = true := by decide
 example : base [69, 110, 117, 109, 56, 40, 39, 97, 39, 61, 49, 41] = tEnum8 := by decide
+
+/-! ## Inference (`ColAuto.Infer`): soundness, boundedness -/
+section Inference
+open Model.Infer Proofs.Infer
+
+/-- `Array(R)`, `Nullable(R)`, `LowCardinality(R)` is compatible with a request of the same base as soon
+as `R` is compatible with the request's element -/
+theorem C19_infer_wrapper (x : Ext) (name r t : Bytes)
+    (hname : name = tArray ∨ name = tNullable ∨ name = tLowCardinality)
+    (hbt : base t = name) (ih : conflicts x r (elem t) = false) :
+    conflicts x (wrap name r) t = false := by
+  have hnl : lparen ∉ name := by rcases hname with h | h | h <;> subst h <;> decide
+  have hn0 : name ≠ [] := by rcases hname with h | h | h <;> subst h <;> decide
+  have hbc : base (wrap name r) = name := base_wrap name r hnl hn0
+  have hec : elem (wrap name r) = r := elem_wrap name r hnl hn0
+  have hw : isWrapperBase name = true := by rcases hname with h | h | h <;> subst h <;> decide
+  have hen : isEnumBase name = false := by rcases hname with h | h | h <;> subst h <;> decide
+  have hdn : isDecimal name = false := by rcases hname with h | h | h <;> subst h <;> decide
+  have hexc : enumExc (wrap name r) t = false := enumExc_false _ _ (by rw [hbc]; exact hen) (by rw [hbt]; exact hen)
+  have hdec : eitherDecimal (wrap name r) t = false := by unfold eitherDecimal; rw [hbc, hbt, hdn]; rfl
+  unfold conflicts
+  rw [C19.conflictsF_succ]
+  by_cases h1 : wrap name r = t
+  · simp [h1]
+  · simp only [h1, ↓reduceIte, hexc, hdec, Bool.false_eq_true, hbc, hbt, ne_eq, not_true_eq_false, hen, hw]
+    by_cases hn : normalizeCommas x (wrap name r) = normalizeCommas x t
+    · simp [hn]
+    · simp only [hn, ↓reduceIte, hec]
+      rw [← conflicts_eq_fuel x r (elem t) _ (by simp [wrap]; omega)]
+      exact ih
+
+/-- `Map(String, String)` (what the created column reports) against the request `Map(String,String)` -/
+theorem C19_infer_mapStrStr (x : Ext) (hsp : ∀ s, x.trim (space :: s) = x.trim s) :
+    conflicts x tMapStrStrRep tMapStrStrReq = false := by
+  apply C19_comma_spacing
+  · decide
+  · have h1 : splitComma tMapStrStrRep = [tMap ++ [lparen] ++ tString, space :: (tString ++ [rparen])] := by decide
+    have h2 : splitComma tMapStrStrReq = [tMap ++ [lparen] ++ tString, tString ++ [rparen]] := by decide
+    unfold normalizeCommas
+    rw [h1, h2]
+    simp [hsp]
+  · decide
+
+theorem C19.reported_dateTime_base (l : Option Bytes) : base (reported (.dateTime l)) = tDateTime := by
+  cases l with
+  | none => decide
+  | some l => exact base_wrap _ _ (by decide) (by decide)
+
+theorem C19.reported_dateTime64_base (p : Nat) (l : Option Bytes) : base (reported (.dateTime64 p l)) = tDateTime64 := by
+  cases l with
+  | none => exact base_wrap _ _ (by decide) (by decide)
+  | some l => exact base_wrap _ _ (by decide) (by decide)
+
+theorem C19.downcast_alias (x : Ext) (a : Bytes) (ha : isDecimalN a = true) (hb : base a = a) :
+    decimalDowncast x a = a := by
+  unfold decimalDowncast
+  rw [hb, ha]; rfl
+
+/-- the Decimal branch: the band chosen by `Infer` is the band `Conflicts` reduces the request to -/
+theorem C19_infer_decimal (x : IExt) (t : Bytes) (c : Col) (hb : base t = tDecimal)
+    (h : inferDecimal x t = some c) : conflicts x.toExt (reported c) t = false := by
+  have hexc : ∀ r, isEnumBase (base r) = false → enumExc r t = false := fun r hr =>
+    enumExc_false _ _ hr (by rw [hb]; decide)
+  have hed : ∀ r, eitherDecimal r t = true := fun r => by unfold eitherDecimal; rw [hb]; simp [isDecimal]
+  unfold inferDecimal at h
+  have hdt : ∀ (prec : Int), (if (cutComma (elem t)).isEmpty then some (10 : Int) else x.atoi (x.trim (cutComma (elem t)))) = some prec →
+      decimalDowncast x.toExt t =
+        if prec < 10 then tDecimal32 else if prec < 19 then tDecimal64 else if prec < 39 then tDecimal128
+        else if prec < 77 then tDecimal256 else t := by
+    intro prec hp
+    unfold decimalDowncast
+    rw [hb]
+    simp only [show isDecimalN tDecimal = false by decide, Bool.false_eq_true, ↓reduceIte,
+      show (tDecimal != tDecimal) = false by decide, hp]
+  simp only at h
+  split at h
+  · exact absurd h (by simp)
+  · rename_i prec hp
+    have hd := hdt prec hp
+    split at h
+    · rename_i hr
+      cases h
+      exact C19_decimal_alias _ _ _ (hed _) (hexc _ (by decide)) (by rw [hd, C19.downcast_alias _ _ (by decide) (by decide)]; simp [hr.2]; rfl)
+    · split at h
+      · rename_i hr1 hr
+        cases h
+        have : ¬ prec < 10 := by omega
+        exact C19_decimal_alias _ _ _ (hed _) (hexc _ (by decide)) (by rw [hd, C19.downcast_alias _ _ (by decide) (by decide)]; simp [this, hr.2]; rfl)
+      · split at h
+        · rename_i hr1 hr2 hr
+          cases h
+          have h10 : ¬ prec < 10 := by omega
+          have h19 : ¬ prec < 19 := by omega
+          exact C19_decimal_alias _ _ _ (hed _) (hexc _ (by decide)) (by rw [hd, C19.downcast_alias _ _ (by decide) (by decide)]; simp [h10, h19, hr.2]; rfl)
+        · split at h
+          · rename_i hr1 hr2 hr3 hr
+            cases h
+            have h10 : ¬ prec < 10 := by omega
+            have h19 : ¬ prec < 19 := by omega
+            have h39 : ¬ prec < 39 := by omega
+            exact C19_decimal_alias _ _ _ (hed _) (hexc _ (by decide)) (by rw [hd, C19.downcast_alias _ _ (by decide) (by decide)]; simp [h10, h19, h39, hr.2]; rfl)
+          · exact absurd h (by simp)
+
+theorem C19.inferDateTime_base (x : IExt) (t : Bytes) (c : Col) (h : inferDateTime x t = some c) :
+    base (reported c) = tDateTime := by
+  unfold inferDateTime at h
+  simp only at h
+  split at h
+  · cases h; exact C19.reported_dateTime_base _
+  · cases hl : x.loadLoc (trimSet [quote] (elem t)) with
+    | none => simp [hl] at h
+    | some l => simp [hl] at h; subst h; exact C19.reported_dateTime_base _
+
+theorem C19.inferDateTime64_base (x : IExt) (t : Bytes) (c : Col) (h : inferDateTime64 x t = some c) :
+    base (reported c) = tDateTime64 := by
+  unfold inferDateTime64 at h
+  simp only at h
+  split at h
+  · exact absurd h (by simp)
+  · split at h
+    · exact absurd h (by simp)
+    · split at h
+      · exact absurd h (by simp)
+      · split at h
+        · cases hl : x.loadLoc (trimSet [quote, space] (cutByte comma (elem t)).2.1) with
+          | none => simp [hl] at h
+          | some l => simp [hl] at h; subst h; exact C19.reported_dateTime64_base _ _
+        · cases h; exact C19.reported_dateTime64_base _ _
+
+/-- the cases decided before `switch t.Base()` -/
+theorem C19.inferExact_sound (x : IExt) (hsp : ∀ s, x.trim (space :: s) = x.trim s) (t : Bytes) (c : Col)
+    (h : inferExact x t = some (some c)) (hex : c.exact = true) :
+    conflicts x.toExt (reported c) t = false := by
+  unfold inferExact at h
+  by_cases h0 : generatedTypes.contains t = true
+  · rw [if_pos h0] at h; cases h; exact C19_conflicts_refl _ _
+  rw [if_neg h0] at h
+  by_cases h1 : hasPrefix tInterval t = true
+  · rw [if_pos h1] at h
+    cases hl : intervalLookup x t with
+    | none => simp [hl] at h
+    | some canon =>
+      simp [hl] at h; subst h
+      have : t = canon := by simpa [Col.exact] using hex
+      subst this; exact C19_conflicts_refl _ _
+  rw [if_neg h1] at h
+  by_cases h2 : t = tNothing
+  · rw [if_pos h2] at h; cases h; subst h2; exact C19_conflicts_refl _ _
+  rw [if_neg h2] at h
+  by_cases h3 : t = tString
+  · rw [if_pos h3] at h; cases h; subst h3; exact C19_conflicts_refl _ _
+  rw [if_neg h3] at h
+  by_cases h4 : t = tBool
+  · rw [if_pos h4] at h; cases h; subst h4; exact C19_conflicts_refl _ _
+  rw [if_neg h4] at h
+  by_cases h5 : t = tDateTime
+  · rw [if_pos h5] at h; cases h; subst h5; exact C19_conflicts_refl _ _
+  rw [if_neg h5] at h
+  by_cases h6 : t = tDate
+  · rw [if_pos h6] at h; cases h; subst h6; exact C19_conflicts_refl _ _
+  rw [if_neg h6] at h
+  by_cases h7 : t = tMapStrStrReq
+  · rw [if_pos h7] at h; cases h; subst h7; exact C19_infer_mapStrStr _ hsp
+  rw [if_neg h7] at h
+  by_cases h8 : t = tUUID
+  · rw [if_pos h8] at h; cases h; subst h8; exact C19_conflicts_refl _ _
+  rw [if_neg h8] at h
+  exact absurd h (by simp)
+
+/-- the non-recursive cases of `switch t.Base()` -/
+theorem C19.inferBase_sound (x : IExt) (t : Bytes) (c : Col) (h : inferBase x t = some c) :
+    conflicts x.toExt (reported c) t = false := by
+  have hdecN : ∀ (a : Bytes), isDecimalN a = true → base a = a → base t = a → isEnumBase a = false →
+      conflicts x.toExt a t = false := by
+    intro a ha hba hbt hen
+    apply C19_decimal_alias
+    · unfold eitherDecimal; rw [hba]; simp [isDecimal, ha]
+    · exact enumExc_false _ _ (by rw [hba]; exact hen) (by rw [hbt]; exact hen)
+    · rw [C19.downcast_alias _ _ ha hba]
+      unfold decimalDowncast; rw [hbt, ha]; rfl
+  unfold inferBase at h
+  simp only at h
+  by_cases h0 : base t = tDateTime
+  · rw [if_pos h0] at h
+    have hc := C19.inferDateTime_base x t c h
+    exact C19_datetime_params _ _ _ (Or.inl hc) (by rw [hc, h0])
+  rw [if_neg h0] at h
+  by_cases h1 : base t = tDecimal
+  · rw [if_pos h1] at h; exact C19_infer_decimal x t c h1 h
+  rw [if_neg h1] at h
+  by_cases h2 : base t = tDecimal32
+  · rw [if_pos h2] at h; cases h; exact hdecN _ (by decide) (by decide) h2 (by decide)
+  rw [if_neg h2] at h
+  by_cases h3 : base t = tDecimal64
+  · rw [if_pos h3] at h; cases h; exact hdecN _ (by decide) (by decide) h3 (by decide)
+  rw [if_neg h3] at h
+  by_cases h4 : base t = tDecimal128
+  · rw [if_pos h4] at h; cases h; exact hdecN _ (by decide) (by decide) h4 (by decide)
+  rw [if_neg h4] at h
+  by_cases h5 : base t = tDecimal256
+  · rw [if_pos h5] at h; cases h; exact hdecN _ (by decide) (by decide) h5 (by decide)
+  rw [if_neg h5] at h
+  by_cases h6 : base t = tEnum8 ∨ base t = tEnum16
+  · rw [if_pos h6] at h
+    by_cases hp : enumParses x t = true
+    · rw [if_pos hp] at h; cases h; exact C19_conflicts_refl _ _
+    · rw [if_neg hp] at h; exact absurd h (by simp)
+  rw [if_neg h6] at h
+  by_cases h7 : base t = tDateTime64
+  · rw [if_pos h7] at h
+    have hc := C19.inferDateTime64_base x t c h
+    exact C19_datetime_params _ _ _ (Or.inr hc) (by rw [hc, h7])
+  rw [if_neg h7] at h
+  exact absurd h (by simp)
+
+/-- **Soundness of `ColAuto.Infer`** at every recursion budget: when inference succeeds, the type reported
+by the created column does not conflict with the requested type.  For every request string, every
+`strings.TrimSpace` that drops a leading space, every `strconv.Atoi`, `strings.ToLower`, `time.LoadLocation`.
+`c.exact` excludes only requests that name an interval type in the wrong letter case (`IntervalSECOND`), which
+`IntervalScaleString` accepts although no such ClickHouse type exists. -/
+theorem C19_inferF_sound (x : IExt) (hsp : ∀ s, x.trim (space :: s) = x.trim s) :
+    ∀ (fuel : Nat) (t : Bytes) (c : Col), inferF x fuel t = some c → c.exact = true →
+      conflicts x.toExt (reported c) t = false := by
+  intro fuel
+  induction fuel with
+  | zero => intro t c h; exact absurd h (by simp [inferF])
+  | succ n ih =>
+    intro t c h hex
+    rw [inferF] at h
+    cases he : inferExact x t with
+    | some r =>
+      rw [he] at h; simp only at h; subst h
+      exact C19.inferExact_sound x hsp t c he hex
+    | none =>
+      rw [he] at h; simp only at h
+      have hwrap : ∀ (name : Bytes) (w : Col → Option Col) (mk : Col → Col),
+          (name = tArray ∨ name = tNullable ∨ name = tLowCardinality) → base t = name →
+          (∀ c', reported (mk c') = wrap name (reported c')) → (∀ c', (mk c').exact = c'.exact) →
+          (∀ c' r, w c' = some r → r = mk c') →
+          (inferF x n (elem t)).bind w = some c → conflicts x.toExt (reported c) t = false := by
+        intro name w mk hname hb hrep hexact hw hbind
+        cases hi : inferF x n (elem t) with
+        | none => rw [hi] at hbind; exact absurd hbind (by simp)
+        | some c' =>
+          rw [hi] at hbind
+          have := hw c' c (by simpa using hbind)
+          subst this
+          rw [hrep]
+          exact C19_infer_wrapper _ _ _ _ hname hb (ih _ _ hi (by rw [← hexact]; exact hex))
+      by_cases h0 : base t = tArray
+      · rw [if_pos h0] at h
+        exact hwrap tArray wrapArr .arr (Or.inl rfl) h0 (fun _ => rfl) (fun _ => rfl)
+          (fun c' r hr => by unfold wrapArr at hr; split at hr <;> simp_all) h
+      rw [if_neg h0] at h
+      by_cases h1 : base t = tNullable
+      · rw [if_pos h1] at h
+        exact hwrap tNullable wrapNullable .nullable (Or.inr (Or.inl rfl)) h1 (fun _ => rfl) (fun _ => rfl)
+          (fun c' r hr => by unfold wrapNullable at hr; split at hr <;> simp_all) h
+      rw [if_neg h1] at h
+      by_cases h2 : base t = tLowCardinality
+      · rw [if_pos h2] at h
+        exact hwrap tLowCardinality wrapLC .lc (Or.inr (Or.inr rfl)) h2 (fun _ => rfl) (fun _ => rfl)
+          (fun c' r hr => by unfold wrapLC at hr; split at hr <;> simp_all) h
+      rw [if_neg h2] at h
+      exact C19.inferBase_sound x t c h
+
+/-- **C19, soundness of inference.** -/
+theorem C19_infer_sound (x : IExt) (hsp : ∀ s, x.trim (space :: s) = x.trim s) (t : Bytes) (c : Col)
+    (h : infer x t = some c) (hex : c.exact = true) : conflicts x.toExt (reported c) t = false :=
+  C19_inferF_sound x hsp _ t c h hex
+
+/-- the hypothesis on `TrimSpace` holds for the instance the driver runs -/
+theorem C19_ascii_trim_space (s : Bytes) : trimAscii (space :: s) = trimAscii s := by
+  unfold trimAscii
+  have : isSpace space = true := by decide
+  simp [List.dropWhile, this]
+
+/-- **C19, inference is bounded**: `Infer` never nests its calls deeper than `maxInferDepth + 1`, whatever the
+type string (a deeper type is an error, not a stack overflow). -/
+theorem C19_infer_depth_bounded (x : IExt) : ∀ (fuel : Nat) (t : Bytes), callDepth x fuel t ≤ fuel := by
+  intro fuel
+  induction fuel with
+  | zero => intro t; simp [callDepth]
+  | succ n ih =>
+    intro t
+    rw [callDepth]
+    split
+    · omega
+    · split
+      · have := ih (elem t); omega
+      · omega
+
+/-- a type nested deeper than the bound is refused -/
+theorem C19_infer_too_deep (x : IExt) (t : Bytes) : inferF x 0 t = none := rfl
+
+/-- without `c.exact` soundness fails, on a string that is not a ClickHouse type: the lower-cased lookup of
+`IntervalScaleString` accepts `IntervalSECOND` and the created column reports `IntervalSecond` -/
+theorem C19_infer_case_folded_refuted :
+    ∃ t c, infer (asciiIExt []) t = some c ∧ c.exact = false ∧
+      conflicts (asciiIExt []).toExt (reported c) t = true :=
+  ⟨tInterval ++ [83, 69, 67, 79, 78, 68], .interval (tInterval ++ [83, 69, 67, 79, 78, 68]) tIntervalSecond,
+    by decide, by decide, by decide⟩
+
+/-! non-vacuity: successful inferences of nested, parameterised types that satisfy the hypotheses -/
+example : infer (asciiIExt []) (wrap tArray (wrap tNullable (wrap tDecimal [57, 44, 32, 50]))) =
+    some (.arr (.nullable .dec32)) := by decide
+example : (Col.arr (.nullable .dec32)).exact = true := rfl
+example : infer (asciiIExt [([85, 84, 67], [85, 84, 67])]) (wrap tDateTime64 [51, 44, 32, 39, 85, 84, 67, 39]) =
+    some (.dateTime64 3 (some [85, 84, 67])) := by decide
+example : infer (asciiIExt []) tDecimal = some .dec64 ∧
+    conflicts (asciiIExt []).toExt tDecimal64 tDecimal = false := by decide
+
+end Inference
